@@ -296,7 +296,9 @@ class TemplateEval(object):
         raise AnalysisError('%s: statement outside the modelled subset of code generators: %s' % (self.fi.qualname, norm(st)[:60]))
 
     def _depth_loop(self, st):
-        """``for d in range(len(funcs)): ...`` in place of the recursion over ``funcs[1:]``.
+        """``for d in range(len(funcs)): ...`` / ``for d, func in enumerate(funcs): ...`` in place of the recursion over
+        ``funcs[1:]`` (``func`` is ``funcs[d]``; a local ``L = level`` that the body advances by one as its last use of it is
+        ``level + d``).
 
         The loop is executed for one *symbolic* iteration in the frame of the equivalent recursive activation: inside
         the body ``<list param>[d]`` is that activation's ``<list param>[0]`` and ``<level param> + d`` its
